@@ -422,7 +422,7 @@ func genSignVerify(g *core.Gen) {
 	for i := 0; i < g.N(80, 2000); i++ {
 		d, msg := randPriv(r), randMsg(r)
 		priv, pk := btcec.PrivKeyFromBytes(b32(d))
-		sig, err := schnorr.Sign(priv, msg)
+		sig, err := schnorr.Sign(priv, msg, schnorr.FastSign()) // FastSign: a generator must never spin in the signer's retry loop
 		if err != nil {
 			continue
 		}
